@@ -140,7 +140,7 @@ def install_handshake_loss():
 
     async def _write_ssl(self):
         plan = LOSS["plan"]
-        if plan is None or self._role != plan["role"] or self._state != State.CONNECTING:
+        if plan is None or plan.get("layer") == "data" or self._role != plan["role"] or self._state != State.CONNECTING:
             return await orig(self)
         try:
             data = self._ssl.bio_read(1500)
@@ -155,6 +155,21 @@ def install_handshake_loss():
             await self.transport._send(data)
 
     RTCDtlsTransport._write_ssl = _write_ssl
+
+    orig_send_data = RTCDtlsTransport._send_data
+
+    async def _send_data(self, data):
+        # the k-th application datagram (SCTP packet: INIT, INIT ACK, COOKIE ECHO, COOKIE ACK, first DATA...) of one side is lost
+        plan = LOSS["plan"]
+        if plan is not None and plan.get("layer") == "data" and self._role == plan["role"]:
+            n = LOSS["counts"].get(("data", id(self)), 0)
+            LOSS["counts"][("data", id(self))] = n + 1
+            if n == plan["k"]:
+                LOSS["dropped"].append((self._role, "data", n, len(data), data[12] if len(data) > 12 else None))
+                return
+        return await orig_send_data(self, data)
+
+    RTCDtlsTransport._send_data = _send_data
     LOSS["installed"] = True
 
 
@@ -210,7 +225,7 @@ async def check_connectivity(a, b, out, desc, cap=20.0):
                 out.fail("transport-never-started", f"negotiated transports still 'new' after {cap:.0f} s: {pending[:6]}", desc)
             elif hb.healthy() and LOSS["plan"] is not None and LOSS["dropped"]:
                 # exactly one handshake datagram per transport was lost; DTLS retransmits after 1 s, 2 s, 4 s...
-                out.fail("transport-never-connected", f"one DTLS handshake datagram was lost ({LOSS['dropped'][:4]}) and {cap:.0f} s later (event loop "
+                out.fail("transport-never-connected", f"one datagram was lost ({LOSS['dropped'][:4]}) and {cap:.0f} s later (event loop "
                          f"alive throughout) the negotiated transports are still {pending[:6]}", desc | {"loss_plan": LOSS["plan"]})
             else:
                 out.inconclusive = f"transports still {sorted({p[2] for p in pending})} at the cap"
@@ -347,16 +362,39 @@ async def burst(x, y, ch, twin, got, out, desc, hb):
                         f"within 10 s", desc)
 
 
-def renumber(text, unknown_codec=False):
+def sparse(text, seed):
+    """A foreign offerer that offers less: some rtcp-fb lines and some header extensions are absent from its offer."""
+    import random
+
+    r = random.Random(seed)
+    keep = []
+    for line in text.split("\r\n"):
+        if line.startswith("a=rtcp-fb:") and r.random() < 0.4:
+            continue
+        if line.startswith("a=extmap:") and r.random() < 0.3:
+            continue
+        keep.append(line)
+    return "\r\n".join(keep)
+
+
+def renumber(text, unknown_codec=False, static_swap=False):
     """Signalling-path munging that emulates an offerer with another numbering: dynamic payload types p -> 223-p and
     header-extension ids i -> 15-i (both involutions, so the same function maps the answer back)."""
     import re
 
+    STATIC = {"0": "110", "8": "111", "9": "112", "110": "0", "111": "8", "112": "9"}
+
     def pt(tok):
+        if static_swap and in_audio[0] and tok in STATIC:
+            return STATIC[tok]  # PCMU / PCMA / G722 offered under dynamic numbers (and back)
         return str(223 - int(tok)) if tok.isdigit() and 96 <= int(tok) <= 127 else tok
+
+    in_audio = [False]
 
     out = []
     for line in text.split("\r\n"):
+        if line.startswith("m="):
+            in_audio[0] = line.startswith("m=audio")
         if line.startswith(("m=audio", "m=video")):
             bits = line.split(" ")
             line = " ".join(bits[:3] + [pt(b) for b in bits[3:]])
@@ -379,16 +417,19 @@ def renumber(text, unknown_codec=False):
     return text
 
 
-async def negotiate_foreign(off, ans, unknown_codec):
+async def negotiate_foreign(off, ans, unknown_codec, variant=0):
     from aiortc import RTCSessionDescription
 
     o, a = off.pc, ans.pc
+    static_swap = variant % 2 == 1
     await o.setLocalDescription(await o.createOffer())
-    offer_seen = renumber(o.localDescription.sdp, unknown_codec)
+    offer_seen = renumber(o.localDescription.sdp, unknown_codec, static_swap)
+    if variant % 3 == 2:
+        offer_seen = sparse(offer_seen, variant)
     await a.setRemoteDescription(RTCSessionDescription(sdp=offer_seen, type="offer"))
     await a.setLocalDescription(await a.createAnswer())
     answer = a.localDescription.sdp
-    await o.setRemoteDescription(RTCSessionDescription(sdp=renumber(answer), type="answer"))
+    await o.setRemoteDescription(RTCSessionDescription(sdp=renumber(answer, False, static_swap), type="answer"))
     return {"offer": offer_seen, "answer": answer}
 
 
@@ -398,7 +439,7 @@ async def round_(off, ans, out, desc, which, foreign=None):
     d = desc | {"round": which, "foreign_numbering": foreign}
     try:
         if foreign:
-            texts = await negotiate_foreign(off, ans, foreign == "unknown-codec")
+            texts = await negotiate_foreign(off, ans, foreign == "unknown-codec", desc.get("foreign_variant", 0))
             out.counters["foreign_numbering_rounds"] += 1
         else:
             texts = await negotiate(off, ans)
@@ -499,16 +540,21 @@ def run_case(index, rng, tier):
             # no tracks, so that no RTP flows with numbers the other side was not told
             for cfg in cfgs:
                 cfg["foreign"] = rng.choice(["renumber", "renumber", "unknown-codec"])
+                cfg["foreign_variant"] = rng.randrange(1000)
                 cfg["followup"] = None
                 for s_ in ("offerer", "answerer"):
                     cfg[s_]["items"] = [(i[0], i[1], i[2], "addTransceiver-kind", None) if i[0] == "t" else i for i in cfg[s_]["items"]]
         elif index % 3 == 1:
             for cfg in cfgs:
-                cfg["handshake_loss"] = {"role": rng.choice(["server", "client"]), "k": rng.randint(0, 3)}
+                layer = rng.choice(["dtls-handshake", "data"])
+                # data layer: only the association set-up packets (INIT / INIT ACK, COOKIE ECHO / COOKIE ACK) - a later
+                # datagram may carry a message of an unreliable channel, whose loss is legitimate
+                cfg["handshake_loss"] = {"role": rng.choice(["server", "client"]), "k": rng.randint(0, 3) if layer != "data" else rng.randint(0, 1),
+                                         "layer": layer}
         out.counters["kind_random"] += 1
     for cfg in cfgs:
         key = config_key(cfg) + (cfg.get("foreign"),)
-        desc = {"config": repr(key)[:700], "handshake_loss": cfg.get("handshake_loss")}
+        desc = {"config": repr(key)[:700], "handshake_loss": cfg.get("handshake_loss"), "foreign_variant": cfg.get("foreign_variant", 0)}
         try:
             run_async(run_config(cfg, out, desc), timeout=150)
         except asyncio.TimeoutError:
